@@ -22,7 +22,7 @@ out = ['# Seeded changes and what catches them', '',
        '`unproved` = proof obligation or correspondence broke and no failing input was found, `regression` = a fixed finding is back).', '',
        '| property | mutant | site | what it breaks | confirmed | caught by |', '|---|---|---|---|---|---|']
 for r in rows: out.append('| ' + ' | '.join(r) + ' |')
-n = len(rows); c = sum(1 for r in rows if 'MISSED' not in r[5])
+n = len(rows); c = sum(1 for r in rows if any('MISSED' not in part for part in r[5].split('; ')))
 out += ['', '%d mutants, %d caught.' % (n, c)]
 open('/verif/seeded/README.md', 'w').write('\n'.join(out) + '\n')
 print('\n'.join(out[-6:]))
